@@ -36,7 +36,7 @@ RULE = (
     "full product of contact configurations (sphere-plane: plane orientation {I, x90, y90, z90, generic} x "
     "{fixed, translating} x {RigidBody, PointMass} x r {0, .1, 1} x (mu, anisotropy) {(0,-), (.3,(1,1)), (.3,(1,.5))} x "
     "B_r_CP {0, generic} x restitution {default, (.5,.25)}; sphere-sphere: 8 partner pairs incl. fixed and "
-    "translating+rotating frames x radii {(.5,.5), (.2,.8)} x mu {0, .5} x 3 reference separations x restitution); "
+    "translating+rotating frames x radii {(.5,.5), (.2,.8)} x mu {0, .5} x 3 reference separations x restitution; point-mass pair at length scales {1e-3, 1e-7} x mu {0, .5} with closed-form references); "
     "inside a case the full product positions (open / touching / penetrating / generic) x quaternion letters "
     "(integer quarter-turn non-unit, half turn, generic non-unit; thorough tier also identity and integer norm-2) x time "
     "letters; per state 4 (u, u_dot) letters for the time-derivative identities and one generic (u, u_dot, lambda) "
@@ -90,6 +90,9 @@ def cases(tier, seed):
             # the same contact with the partners registered in the opposite order
             out.append({"contact": "s2s", "pair": list(pair), "radii": list(radii), "mu": mu, "sep": sep, "rest": rest,
                         "tier": tier, "seed": seed, "order": "21"})
+    # ---------------- sphere - sphere at the small end of the length scale (sub-micrometre particles in SI units)
+    for mu, scale in itertools.product((0.0, 0.5), (1e-3, 1e-7)):
+        out.append({"contact": "s2s_tiny", "pair": ["PM", "PM"], "mu": mu, "scale": scale, "tier": tier, "seed": seed})
     # simplest first: point masses / no friction first
     out.sort(key=lambda c: (c["contact"], c["mu"] > 0, c.get("sub", "") == "RB", "RB" in c.get("pair", [])))
     return out
@@ -572,6 +575,56 @@ def _check_s2s(case, R):
             R.fail("deep copy + set_new_initial_state of a system with a sphere-sphere contact raises", f"{type(e).__name__}: {e}", exc=type(e).__name__)
 
 
+def _check_s2s_tiny(case, R):
+    """two point masses carrying spheres of radii 0.2 L and 0.25 L with centre distances 0.4 L .. 0.6 L: closed-form references only,
+    judged relative to the length / velocity scale of the model"""
+    from vp.scen import contacts as sc
+
+    seed, L, mu = case["seed"], case["scale"], case["mu"]
+    r1, r2 = 0.2 * L, 0.25 * L
+    e = np.array([1.0, 2.0, -2.0]) / 3.0
+    b = sc.build_s2s(("PM", "PM"), (r1, r2), mu, 0.5 * L * e, seed)
+    s = b["system"]
+    sub1, sub2 = b["subs"]
+    lat = np.cross(e, [0.3, -0.5, 0.8])
+    lat /= np.linalg.norm(lat)
+    t = 0.3
+    k = 0
+    for fac, tilt in itertools.product((0.6, 0.5, 0.45, 0.4), (0.0, 0.2)):
+        k += 1
+        c1 = np.asarray(b["c1"], float)
+        c2 = c1 + fac * L * (e + tilt * lat) / np.linalg.norm(e + tilt * lat)
+        q = _glob_state(b, [(sub1, c1), (sub2, c2)])
+        d = q[sub2.qDOF] - q[sub1.qDOF]
+        dist = float(np.linalg.norm(d))
+        n = d / dist
+        st = {"scale": L, "centre_distance_over_scale": fac, "tilt": tilt}
+        R.stats["n_states"] += 1
+        for ul, u in (("gen", weyl(seed, 70 + k, s.nu)), ("gen_small", L * weyl(seed, 80 + k, s.nu))):
+            st_u = dict(st, u=ul)
+            vrel = u[sub2.uDOF] - u[sub1.uDOF]
+            vs = float(np.linalg.norm(vrel)) + 1e-300
+            R.evals += 3
+            R.sig += 3
+            gN = float(np.ravel(fd.dense(s.g_N(t, q)))[0])
+            if not abs(gN - (dist - r1 - r2)) <= 1e-8 * L:
+                R.fail("g_N vs signed distance [small length scale]", f"{gN!r} vs {dist - r1 - r2!r} at scale {L:g}", state=st_u, err=abs(gN - (dist - r1 - r2)))
+            gd = float(np.ravel(fd.dense(s.g_N_dot(t, q, u)))[0])
+            if not abs(gd - n @ vrel) <= 1e-8 * vs:
+                R.fail("g_N_dot vs n.(v2 - v1) [small length scale]", f"{gd!r} vs {float(n @ vrel)!r} at scale {L:g}", state=st_u, err=abs(gd - n @ vrel))
+            wn = float(np.ravel(fd.dense(s.W_N(t, q)).T @ u)[0])
+            if not abs(wn - n @ vrel) <= 1e-8 * vs:
+                R.fail("W_N^T u vs n.(v2 - v1) [small length scale]", f"{wn!r} vs {float(n @ vrel)!r} at scale {L:g}", state=st_u, err=abs(wn - n @ vrel))
+            if mu > 0:
+                R.evals += 1
+                gF = np.ravel(fd.dense(s.gamma_F(t, q, u)))
+                vt = vrel - n * (n @ vrel)
+                if not abs(float(np.linalg.norm(gF)) - float(np.linalg.norm(vt))) <= 1e-8 * vs:
+                    R.fail("|gamma_F| vs tangential relative speed [small length scale]", f"{np.linalg.norm(gF)!r} vs {np.linalg.norm(vt)!r} at scale {L:g}",
+                           state=st_u, err=abs(float(np.linalg.norm(gF)) - float(np.linalg.norm(vt))))
+    R.outcomes.add("s2s_tiny")
+
+
 def check(case):
     import warnings
 
@@ -579,6 +632,8 @@ def check(case):
     R = Rec(case)
     if case["contact"] == "s2p":
         _check_s2p(case, R)
+    elif case["contact"] == "s2s_tiny":
+        _check_s2s_tiny(case, R)
     else:
         _check_s2s(case, R)
     return R.result()
